@@ -140,6 +140,7 @@ func fetchProblem(c *world.Case, out mon.Outcome, v *ref.Verdict) string {
 }
 
 func c12(x *mon.Ctx) {
+	enableTwins(x)
 	x.Level = "exploration"
 	x.Rule = "(a) every world of the shared corpus (honest + one injected fault from the C01/C02/C03/C05/C06 fault families) is verified under all four option combinations: accept(coll,crl) => accept(coll) => accept(base), and (crl without coll) rejects; (b) a recording getter checks: no request at all with collateral off, CRL endpoints only with revocation on, TCB-Info URL names the FMSPC that the reference DER decoder reads from the leaf (also with permuted extension elements), PCK-CRL URL names platform/processor according to the leaf's issuer; (c) histories of 2-6 verifications (different worlds, option settings toggled between calls) through ONE verify.Options value: each verdict must equal the verdict of the same call on a fresh value; (d) one wall-clock history with Options.Now left nil across a certificate's expiry. distinct = (world, option combination) / distinct history."
 	x.Assume = []string{"(d) reads the wall clock; if the first call came after the expiry it is inconclusive, never a violation"}
